@@ -22,8 +22,9 @@ VALUES = [b"", b" ", b"a b", b"=", b"a=b=c", b"=x", b"-x", b"--", b"--name", b"-
           b"\n", b"a\nb", b"\r\n", b"\t", b"\xc3\xa4\xff\x80", b"'\"\\$`", b"{}", b"%s%n", b"plain",
           b"file.txt", b"0", b"x" * 4096, b"-" * 300, b"no-x", b"--no-x=1", b" lead", b"trail ", b"\x01\x7f"]
 NUMS = [(b"0", 0), (b"7", 7), (b"007", 7), (b"+5", 5), (b"42", 42), (b"2147483647", 2147483647),
-        (b"-12", -12), (b"-2147483648", -2147483648), (b"65535", 65535)]
-DOUBLES = [b"3.25", b"-0.5", b"1e3", b"0.1", b"2", b"-7.5e-3", b"+4.0"]
+        (b"-12", -12), (b"-2147483648", -2147483648), (b"65535", 65535), (b"0100", 100), (b"012", 12),
+        (b"0089", 89), (b"000042", 42), (b"-0010", -10), (b"08", 8), (b"+010", 10), (b"00", 0)]
+DOUBLES = [b"3.25", b"-0.5", b"1e3", b"0.1", b"2", b"-7.5e-3", b"+4.0", b"010.5", b"00.50", b"0017"]
 
 
 def vclass(v):
@@ -49,7 +50,7 @@ def nchunks(tier):
 
 
 def _decl(rng):
-    d = optgen.rand_decl(rng, nmax=7, env_rate=0.0, required_rate=0.0)
+    d = optgen.rand_decl(rng, nmax=7, env_rate=0.0, required_rate=0.0, groups=True)
     for o in d["opts"]:
         o["default"] = None
         o["optional"] = True
